@@ -46,6 +46,11 @@ def blocks(tier, seed):
         out.append({"kind": "pairs", "i": i, "with": core})
     for i in range(len(aclgen.merge_pairs())):
         out.append({"kind": "mpair", "i": i})
+    # overlap families against every single-rule %global ACL (a specific global rule may out-rank a local catch-all)
+    ov = [i for i, (name, _) in enumerate(A) if name.startswith("overlap")]
+    gl = [i for i, (name, fac) in enumerate(A) if name.startswith("L1-") and len(fac()) == 1 and fac()[0].glob]
+    for i in ov:
+        out.append({"kind": "pairs", "i": i, "with": gl})
     return out
 
 
@@ -194,7 +199,20 @@ def merge_shape(ra, rb_):
                     if not r.glob and not q.glob and clash(r.children, q.children):
                         return True
         return False
-    return "same row is %global in one ACL and a block with children in the other" if clash(ra, rb_) else "other"
+    if clash(ra, rb_):
+        return "same row is %global in one ACL and a block with children in the other"
+
+    def walk(rs):
+        for r in rs:
+            yield r
+            yield from walk(r.children)
+
+    def outranks(x, y):
+        return (any(r.glob and r.pattern != "~" for r in walk(x))
+                and any((not r.glob) and r.pattern == "~" and r.children for r in walk(y)))
+    if outranks(ra, rb_) or outranks(rb_, ra):
+        return "a specific %global rule of one ACL out-ranks a local catch-all with children of the other"
+    return "other"
 
 
 def run_mpair(block, ctx):
